@@ -10,7 +10,9 @@
 //!      same substream; oracle = bounding box + values of the logical sheet
 //!   M  a worksheet substream built by the Rust record encoder with physical oddities or one structural fault
 //!      (impl vs model; the property says nothing about malformed input, panics there are C06 findings)
+#[cfg(feature = "hooks")]
 use calamine::verif_hooks::formats::CellFormat;
+#[cfg(feature = "hooks")]
 use calamine::verif_hooks::xls as hk;
 use calamine::{Data, Range, Reader, Xls, XlsError};
 use std::io::Cursor;
@@ -103,6 +105,7 @@ impl Num {
 
 const FNV0: u64 = 0xcbf29ce484222325;
 
+#[cfg(feature = "hooks")]
 fn rk_impl(w: u32) -> Num {
     match hk::c02_rk_word(w) {
         Data::Int(v) => Num::I(v),
@@ -132,6 +135,7 @@ fn rk_oracle(w: u32) -> Num {
     }
 }
 
+#[cfg(feature = "hooks")]
 /// one word three ways; records a failure and returns false on any disagreement
 fn rk_case(w: u32, drv: &mut Driver, rep: &mut Report) -> bool {
     let i = guarded(|| rk_impl(w)).map(|n| n.show()).unwrap_or_else(|m| format!("panic {m}"));
@@ -153,6 +157,7 @@ fn rk_case(w: u32, drv: &mut Driver, rep: &mut Report) -> bool {
     ok
 }
 
+#[cfg(feature = "hooks")]
 /// block `start + i·stride`, i < count: checksum of impl and oracle here, of the model in the driver
 fn rk_block(start: u64, count: u64, stride: u64, drv: &mut Driver) -> (bool, u64) {
     let mut hi = FNV0;
@@ -172,6 +177,7 @@ fn rk_block(start: u64, count: u64, stride: u64, drv: &mut Driver) -> (bool, u64
     (hi == hm && hi == ho, ints)
 }
 
+#[cfg(feature = "hooks")]
 fn rk_sweeps(args: &Args, rep: &mut Report, drv: &mut Driver) {
     // boundary words one by one (also the replay format of this family)
     let mut edge: Vec<u32> = vec![0, 1, 2, 3, 4, 5, 6, 7, 0xFFFF_FFFF, 0xFFFF_FFFE, 0xFFFF_FFFD, 0xFFFF_FFFC, 0x7FFF_FFFE, 0x8000_0002, 0x8000_0003];
@@ -308,6 +314,7 @@ impl EnvD {
             self.sst.iter().map(|s| if s.is_empty() { "_".to_string() } else { scalars(s) }).collect::<Vec<_>>().join("/")
         }
     }
+    #[cfg(feature = "hooks")]
     fn formats(&self) -> Vec<CellFormat> {
         self.fmts
             .iter()
@@ -378,11 +385,13 @@ fn gen_env(rng: &mut Rng) -> EnvD {
 
 // ---------------------------------------------------------------- R: single records
 
+#[cfg(feature = "hooks")]
 fn impl_cells(cells: Vec<calamine::Cell<Data>>) -> String {
     let v: Vec<(u32, u32, String)> = cells.iter().map(|c| (c.get_position().0, c.get_position().1, canon_data(c.get_value()))).collect();
     format!("ok {}", canon_cells(&v))
 }
 
+#[cfg(feature = "hooks")]
 fn rec_impl(env: &EnvD, typ: u16, d: &[u8]) -> String {
     let f = env.formats();
     let r = guarded(|| -> Result<Vec<calamine::Cell<Data>>, XlsError> {
@@ -407,6 +416,7 @@ fn rec_impl(env: &EnvD, typ: u16, d: &[u8]) -> String {
     }
 }
 
+#[cfg(feature = "hooks")]
 fn gen_record(rng: &mut Rng, env: &EnvD) -> (u16, Vec<u8>, Option<String>) {
     // (typ, payload, oracle when the payload is a well-formed record)
     let row = *rng.pick(&[0u16, 1, 2, 255, 256, 40000, 65534, 65535]);
@@ -514,6 +524,7 @@ fn gen_record(rng: &mut Rng, env: &EnvD) -> (u16, Vec<u8>, Option<String>) {
     (typ, d, oracle)
 }
 
+#[cfg(feature = "hooks")]
 fn rec_case(env: &EnvD, typ: u16, d: &[u8], oracle: Option<&str>, drv: &mut Driver, rep: &mut Report) {
     let input = format!("R {} {} {} {} {}", env.fmts_wire(), env.is1904 as u8, env.sst_wire(), typ, hex(d));
     let i = rec_impl(env, typ, d);
@@ -1213,14 +1224,18 @@ fn corpus() -> Vec<&'static str> {
 fn run_input(input: &str, drv: &mut Driver, rep: &mut Report, shrink_budget: &mut u32) {
     let p: Vec<&str> = input.split(' ').collect();
     match p[0] {
+        #[cfg(feature = "hooks")]
         "K" => {
             rep.case(input, true);
             rk_case(p[1].parse().unwrap(), drv, rep);
         }
+        #[cfg(feature = "hooks")]
         "R" => {
             let env = EnvD::parse(p[1], p[2], p[3]);
             rec_case(&env, p[4].parse().unwrap(), &unhex(p[5]), None, drv, rep);
         }
+        #[cfg(not(feature = "hooks"))]
+        "K" | "R" => rep.count("skipped.hooks_unavailable"),
         "F" => {
             let b = Book::parse(&p);
             book_case(b, drv, rep, shrink_budget);
@@ -1330,26 +1345,86 @@ fn main() {
         for c in corpus() {
             run_input(c, &mut drv, &mut rep, &mut shrink_budget);
         }
+        #[cfg(feature = "hooks")]
         rk_sweeps(&args, &mut rep, &mut drv);
-        let mut rng = Rng::new(args.seed);
-        let nrec = args.count(20_000, 2_000_000);
-        for _ in 0..nrec {
-            let env = gen_env(&mut rng);
-            let (typ, d, oracle) = gen_record(&mut rng, &env);
-            rec_case(&env, typ, &d, oracle.as_deref(), &mut drv, &mut rep);
+        #[cfg(not(feature = "hooks"))]
+        rep.notes.push("built without the verif-hooks feature: the RK sweeps (K) and the record-level cases (R) are unavailable; the file-level correspondences (F, M) ran".into());
+        // the generated cases, spread over worker threads (one driver and one local report each); every case
+        // draws from its own PRNG stream `(seed, family, index)`, so the run does not depend on the thread count
+        let nrec = args.count(40_000, 2_000_000);
+        let nfile = args.count(4_000, 200_000);
+        let nphys = args.count(6_000, 300_000);
+        let nthreads = std::thread::available_parallelism().map(|n| n.get()).unwrap_or(4).clamp(1, 16) as u64;
+        let mut handles = vec![];
+        for t in 0..nthreads {
+            let path = args.driver.clone();
+            let seed = args.seed;
+            handles.push(std::thread::spawn(move || {
+                let mut drv = Driver::spawn(&path);
+                let mut rep = Report::new("C02", "");
+                let mut shrink_budget = if t == 0 { 6u32 } else { 1 };
+                let stream = |family: u64, i: u64| Rng::new(seed ^ (family << 60) ^ i.wrapping_mul(0x9E37_79B9_7F4A_7C15));
+                #[cfg(feature = "hooks")]
+                {
+                    let mut i = t;
+                    while i < nrec {
+                        let mut rng = stream(1, i);
+                        let env = gen_env(&mut rng);
+                        let (typ, d, oracle) = gen_record(&mut rng, &env);
+                        rec_case(&env, typ, &d, oracle.as_deref(), &mut drv, &mut rep);
+                        i += nthreads;
+                    }
+                }
+                let _ = nrec;
+                let mut i = t;
+                while i < nfile {
+                    let mut rng = stream(2, i);
+                    let env = gen_env(&mut rng);
+                    let ns = *rng.pick(&[1usize, 1, 2, 3]);
+                    let sheets = (0..ns).map(|_| gen_sheet(&mut rng, &env)).collect();
+                    let b = Book { env, sheets, seed: rng.next() };
+                    book_case(b, &mut drv, &mut rep, &mut shrink_budget);
+                    i += nthreads;
+                }
+                let mut i = t;
+                while i < nphys {
+                    let mut rng = stream(3, i);
+                    let (p, fault) = gen_phys(&mut rng);
+                    phys_case(&p, &fault, &mut drv, &mut rep);
+                    i += nthreads;
+                }
+                rep.add("driver_requests", drv.requests);
+                rep
+            }));
         }
-        let nfile = args.count(2_000, 200_000);
-        for _ in 0..nfile {
-            let env = gen_env(&mut rng);
-            let ns = *rng.pick(&[1usize, 1, 2, 3]);
-            let sheets = (0..ns).map(|_| gen_sheet(&mut rng, &env)).collect();
-            let b = Book { env, sheets, seed: rng.next() };
-            book_case(b, &mut drv, &mut rep, &mut shrink_budget);
-        }
-        let nphys = args.count(3_000, 300_000);
-        for _ in 0..nphys {
-            let (p, fault) = gen_phys(&mut rng);
-            phys_case(&p, &fault, &mut drv, &mut rep);
+        for h in handles {
+            let local = h.join().expect("case worker");
+            let distinct = local.to_json()["distinct_nontrivial"].as_u64().unwrap_or(0);
+            let sample = local.samples.first().cloned().unwrap_or_default();
+            rep.bulk(local.evaluations, distinct, &sample);
+            for s in local.samples.iter().skip(1).take(1) {
+                if rep.samples.len() < 8 {
+                    rep.samples.push(s.clone());
+                }
+            }
+            for (k, v) in &local.counters {
+                if k != "bulk_distinct" {
+                    rep.add(k, *v);
+                }
+            }
+            for (k, v) in &local.failure_count {
+                *rep.failure_count.entry(k.clone()).or_insert(0) += v;
+            }
+            for f in &local.failures {
+                match rep.failures.iter_mut().find(|g| g.kind == f.kind && g.sig == f.sig) {
+                    Some(g) => {
+                        if f.input.len() < g.input.len() {
+                            *g = f.clone();
+                        }
+                    }
+                    None => rep.failures.push(f.clone()),
+                }
+            }
         }
     }
     rep.add("driver_requests", drv.requests);
